@@ -17,6 +17,7 @@ def dispatch (op : String) : Option (List String → String → Res) :=
   | "builder" => some hBuilder
   | "nextone" => some hNextOne | "prevone" => some hPrevOne
   | "tbl" => some hTblIdxToPath
+  | "builderprobe" => some hProbeOk | "ofmanyprobe" => some hProbeOk | "tbprobe" => some hProbeOk
   | "join" => some hJoin | "joinprobe" => some hJoinProbe | "getw" => some hGetw | "slice" => some hSlice
   | "fromstr32" => some hFromStr32
   | "tb" => some hTb
@@ -30,7 +31,7 @@ def dispatch (op : String) : Option (List String → String → Res) :=
   | "bwfromstr" => some hBwFromStr | "bwtostr" => some hBwToStr | "bwrt" => some hBwRoundTrip
   | "bwget" => some hBwGet | "bwfirstdiff" => some hBwFirstDiff | "bwstrs" => some hBwStrs
   | "fdb" => some hFdb | "countprefixes" => some hCountPrefixes | "shard" => some hShard
-  | "sw" => some hSw | "atw" => some hAtw
+  | "sw" => some hSw | "atw" => some hAtw | "swn" => some hSwn
   | "pbmk" => some hPbMarshal | "pbrt" => some hPbRt | "pbs" => some hPbStream | "pbraw" => some hPbRaw | "pbh" => some hPbHeader
   | "sizeofgen" => some hSizeOf | "sizeofnamed" => some hSizeOf
   | _ => none
